@@ -56,7 +56,7 @@ def main(tier):
         kinds.add(type(p).__name__)
         if type(q).__name__ != "NotPredicate" or type(p).__name__ == "NotPredicate":
             chk.nontrivial.add(d)
-        for x in values:
+        for x in values + pool.neighbours_of(p):
             try:
                 a = p(x)
             except Exception:  # noqa: BLE001  p undefined at x
